@@ -513,7 +513,6 @@ func e5Check(h H, rule string, scope []*ssa.Function, exceptions map[string]e5Ex
 	return st
 }
 
-
 // lookupException: an exception is keyed by the source text of the site; a local that names a sub-expression makes
 // the canonical text differ by a pair of parentheses only — those do not matter.
 func lookupException(exceptions map[string]e5Exception, key string) (e5Exception, bool) {
